@@ -18,7 +18,7 @@ STUBS = ["the WLS iteration is not run: at the true state x the estimator's resi
          "the eppci container is a stub holding V (polar, symbolic), masks selecting every measurement type, and the Y matrices of the real makeYbus"]
 ASSUMPTIONS = ["3 buses / 2 branches with symbolic branch data, symbolic voltages in polar form, all measurement types at all locations"]
 OUTSIDE = ["WLS / LP / robust estimators' iterations, observability analysis, bad data detection, measurement conversion of the pandapower tables beyond the per-unit conversion "
-           "of current magnitudes on one transformer and one line (p/q/va units, merging of duplicate measurements, trafo3w sides)", "af-wls extension"]
+           "of current magnitudes and one p / one q branch measurement on one transformer and one line (va units, bus p/q signs, merging of duplicate measurements, trafo3w sides)", "af-wls extension"]
 BOUNDS = {"quick": "current measurement units (trafo hv/lv, line from/to); h(x) for p/q bus, p/q from/to, v, va, i from/to on 3 buses / 1 branch (thorough: 2 branches) + concrete reachability twin through estimate()", "thorough": "same"}
 
 
@@ -177,6 +177,8 @@ def _im_net():
         for et, el, side in (("trafo", 0, "hv"), ("trafo", 0, "lv"), ("line", 0, "from"), ("line", 0, "to")):
             pp.create_measurement(net, "i", et, 0.1, 0.01, el, side=side)
         pp.create_measurement(net, "v", "bus", 1.0, 0.01, 0)
+        pp.create_measurement(net, "p", "trafo", 1.0, 0.01, 0, side="lv")
+        pp.create_measurement(net, "q", "line", 1.0, 0.01, 0, side="from")
         _IM["n"] = net
     return _IM["n"]
 
@@ -189,11 +191,12 @@ def make_current_units():
         pc = ctx.load("pandapower.estimation.ppc_conversion")
         import copy
         from pandapower.pypower.idx_brch import branch_cols
-        from pandapower.estimation.idx_brch import IM_FROM, IM_TO
+        from pandapower.estimation.idx_brch import IM_FROM, IM_TO, P_TO, Q_FROM
         _ppci_concrete()
         net = copy.deepcopy(_im_net())
         vals = [ctx.var(f"i_ka_{k}", 0.01, 2.) for k in ("trafo_hv", "trafo_lv", "line_from", "line_to")]
-        setcol(ctx, net.measurement, "value", vals + [1.0])
+        pq = [ctx.var("p_trafo_lv_mw", -50., 50.), ctx.var("q_line_from_mvar", -50., 50.)]
+        setcol(ctx, net.measurement, "value", vals + [1.0] + pq)
         vn = [ctx.var("vn_hv_kv", 60., 400.), ctx.var("vn_lv_kv", 1., 50.)]
         setcol(ctx, net.bus, "vn_kv", [vn[0], vn[1], vn[1]])
         ppci = copy.deepcopy(_ppci_concrete())          # concrete internal case (real _init_ppc); only the measurement columns are symbolic
@@ -203,6 +206,8 @@ def make_current_units():
         lk = net._pd2ppc_lookups["branch"]
         rows = {"trafo": lk["trafo"][0], "line": lk["line"][0]}
         br = ppci["branch"]
+        ctx.close("trafo_lv_active_power_in_per_unit_at_the_to_side", br[rows["trafo"], branch_cols + P_TO] * S, pq[0], 1e-9)
+        ctx.close("line_from_reactive_power_in_per_unit_at_the_from_side", br[rows["line"], branch_cols + Q_FROM] * S, pq[1], 1e-9)
         sq3 = np.sqrt(3)
         for nm, row, col, val, un in (("trafo_hv", rows["trafo"], IM_FROM, vals[0], vn[0]), ("trafo_lv", rows["trafo"], IM_TO, vals[1], vn[1]),
                                       ("line_from", rows["line"], IM_FROM, vals[2], vn[1]), ("line_to", rows["line"], IM_TO, vals[3], vn[1])):
